@@ -7,13 +7,23 @@ import collections
 from . import scripts as S, readcamp as R, formats, kernels as K
 
 
-def known_class(fmt, ch, text, cat):
+def _odd_count_before(script, line):
+    """does the script issue a read/write with an odd item count at or before `line`? (mono VOX: items = frames)"""
+    for l in (script or "").split("\n")[:(line + 1 if line else None)]:      # findings of the write phase carry line 0: whole script
+        t = l.split()
+        if len(t) >= 5 and t[0] in ("r", "w") and t[4].lstrip("-").isdigit() and int(t[4]) % 2 == 1:
+            return True
+    return False
+
+
+def known_class(fmt, ch, text, cat, script=None, line=None):
     """maps a problem to the id of a known finding, or None. Classes are decidable predicates on (format, channels,
-    symptom); they mirror the hypotheses excluded by the `_partial` theorems."""
+    symptom, history); they mirror the hypotheses excluded by the `_partial` theorems."""
     if fmt is None:
         return None
-    # OKI/VOX ADPCM packs two samples per byte: odd item counts transfer one sample too many
-    if fmt.codec == 0x21:
+    # OKI/VOX ADPCM packs two samples per byte: a call with an odd item count transfers one sample too many, which
+    # also shifts everything read or written afterwards by one sample
+    if fmt.codec == 0x21 and (script is None or _odd_count_before(script, line)):
         return "KF-VOX-ODD"
     # RAW/DWVW has no header: the frame count is an estimate from the file length
     if fmt.major == 0x04 and fmt.codec in (0x40, 0x41, 0x42) and cat in ("short", "eof", "data", "count", "position", "frames"):
